@@ -129,6 +129,7 @@ func c19Once(c *mon.Ctx) {
 			}
 		}
 		c.R.Distinct("blocks", b.name)
+		c.R.Sample(8, map[string]any{"block": b.cidr, "first": n.IP.String(), "last": lastAddr(n).String(), "first_reserved": util.IsIANAReserved(n.IP), "block_intersects": util.IntersectsIANAReserved(*n)})
 		// every prefix length: super-nets of the block, the block, sub-nets at both ends
 		ones, bits := n.Mask.Size()
 		for p := 0; p <= bits; p++ {
